@@ -20,6 +20,8 @@ attribute registries and the Unicode digit table -- from the running interpreter
   msg_*                 the message of every `raise XPathParsingError/XPathUnsupportedStandardFeature`,
                         f-strings as functions of their holes (hole texts listed in msg_holes)
   xpe_render            XPathParsingError.__str__ (shape-matched against a template, constants extracted)
+  cached_properties     the functools.cached_property members of the AST node classes (ast.py); the generator
+                        fails if any method but __init__ assigns to an attribute of self
   audit                 per function: how many subscripts, dict lookups, slices, asserts, .pop(), int(),
                         getattr, raise <class>, try handlers it contains.  Parse.v states what its model
                         accounts for (`model_audit`) and ParseFacts.v proves `audit = model_audit`.
@@ -571,8 +573,22 @@ def gen_xpath():
     if len(ops_excl) != 1 or not all(isinstance(e, ast.Constant) and isinstance(e.value, str)
                                      for e in ops_excl[0].comparators[0].elts):
         raise Unsupported("parse_evaluation_expression: `token.string not in (...)` changed")
-    out += "Definition logical_operators : list str := [%s].\n\n" % "; ".join(
+    out += "Definition logical_operators : list str := [%s].\n" % "; ".join(
         clit(e.value) for e in ops_excl[0].comparators[0].elts)
+    # the functions whose attribute argument stays a HasAttribute:
+    # `isinstance(argument, HasAttribute) and tokens[0].string not in (...)`
+    keep = [n for n in ast.walk(find_func(par_tree, "parse_evaluation_expression"))
+            if isinstance(n, ast.BoolOp) and isinstance(n.op, ast.And) and len(n.values) == 2
+            and ast.unparse(n.values[0]) == "isinstance(argument, HasAttribute)"
+            and isinstance(n.values[1], ast.Compare) and len(n.values[1].ops) == 1
+            and isinstance(n.values[1].ops[0], ast.NotIn) and ast.unparse(n.values[1].left) == "tokens[0].string"
+            and isinstance(n.values[1].comparators[0], ast.Tuple)]
+    if len(keep) != 1 or not all(isinstance(e, ast.Constant) and isinstance(e.value, str)
+                                 for e in keep[0].values[1].comparators[0].elts):
+        raise Unsupported("parse_evaluation_expression: the conversion of attribute arguments is no longer "
+                          "`isinstance(argument, HasAttribute) and tokens[0].string not in (<names>)`")
+    out += "Definition existence_functions : list str := [%s].\n\n" % "; ".join(
+        clit(e.value) for e in keep[0].values[1].comparators[0].elts)
 
     # -- function registry (plugin_manager.xpath_functions as ast.Function.__init__ reads it)
     rows = []
@@ -661,6 +677,34 @@ def gen_xpath():
             raise Unsupported("%s is no longer decorated with exactly lru_cache(<n>)" % qual)
         caches.append(int(decs[0][10:-1]))
     out += "Definition tokenize_cache_size : nat := %d.\nDefinition parse_cache_size : nat := %d.\n\n" % tuple(caches)
+
+    # -- functools.cached_property on AST nodes (the nodes are shared between callers through the parse cache):
+    #    which ones exist, and that no method other than __init__ assigns to an attribute of self, so that
+    #    what a cached property computes from cannot change after construction
+    cps = []
+    for c in ast_tree.body:
+        if not isinstance(c, ast.ClassDef):
+            continue
+        for f in c.body:
+            if not isinstance(f, ast.FunctionDef):
+                continue
+            if any(ast.unparse(d).endswith("cached_property") for d in f.decorator_list):
+                cps.append((c.name, f.name))
+            if f.name == "__init__":
+                continue
+            for n in ast.walk(f):
+                tg = n.targets if isinstance(n, ast.Assign) else \
+                    [n.target] if isinstance(n, (ast.AugAssign, ast.AnnAssign)) else \
+                    n.targets if isinstance(n, ast.Delete) else []
+                for x in tg:
+                    for y in ast.walk(x):
+                        if isinstance(y, ast.Attribute) and isinstance(y.value, ast.Name) and y.value.id == "self":
+                            raise Unsupported("ast.py: %s.%s assigns to self.%s outside __init__ (AST nodes are shared "
+                                              "through the parse cache)" % (c.name, f.name, y.attr))
+                if isinstance(n, ast.Call) and isinstance(n.func, ast.Name) and n.func.id in ("setattr", "delattr"):
+                    raise Unsupported("ast.py: %s.%s uses %s" % (c.name, f.name, n.func.id))
+    out += "Definition cached_properties : list (str * str) := [%s].\n\n" % "; ".join(
+        "(%s, %s)" % (clit(a), clit(b)) for a, b in cps)
 
     # -- audit
     audited = [("tokenizer.tokenize", find_func(tok_tree, "tokenize"))]
